@@ -215,7 +215,22 @@ func checkDuplicateGuards(c *Ctx, r *Rec, rule string, fds []*ast.FuncDecl) {
 				chains++
 				for j := i + 1; j < len(list); j++ {
 					if js, ok := list[j].(*ast.IfStmt); ok && js.Init == nil && exprStr(js.Cond) == exprStr(is.Cond) {
-						report(is.Cond, js.Cond, "whose branch always leaves the function")
+						// a branch that only panics is an assertion ("this cannot happen"): that it
+						// cannot run is what it says
+						onlyPanics := len(js.Body.List) > 0
+						for _, bs := range js.Body.List {
+							es, isExpr := bs.(*ast.ExprStmt)
+							if !isExpr {
+								onlyPanics = false
+								continue
+							}
+							if call, isCall := es.X.(*ast.CallExpr); !isCall || !noReturnCall(info, call) {
+								onlyPanics = false
+							}
+						}
+						if !onlyPanics {
+							report(is.Cond, js.Cond, "whose branch always leaves the function")
+						}
 						break
 					}
 					if writesAny(info, list[j], vars) {
@@ -1156,6 +1171,10 @@ func shapeLints(c *Ctx, r *Rec, fds []*ast.FuncDecl) {
 	checkSiblingCallsAgree(c, r, "G9-sibling-calls-agree", fds)
 	checkFirstRoundAsked(c, r, "G10-first-round-asked", fds)
 	checkBreaksLeaveSomething(c, r, "G11-breaks-leave-something", fds)
+	checkValuesNotAskedDefined(c, r, "G12-values-not-asked-whether-defined", fds)
+	checkRecoverPassesOn(c, r, "G13-recover-passes-on", fds)
+	checkFoundAtZero(c, r, "G14-position-zero-is-a-hit", fds)
+	checkCountersBalanced(c, r, "G15-counters-balanced", fds)
 	r.count("functions read by the shape rules", len(fds))
 }
 
@@ -1645,4 +1664,56 @@ func checkBreaksLeaveSomething(c *Ctx, r *Rec, rule string, fds []*ast.FuncDecl)
 	if bad == 0 {
 		r.ok(rule, "breaks", "", fmt.Sprintf("%d trailing breaks in cases; none of them stands in a loop it does not leave", breaks))
 	}
+}
+
+// ---------------------------------------------------------------- assertions
+
+// nilAssertion: the panic call is the whole body of `if X == nil { panic(...) }` (a check on a value
+// that the code has just made or always has): an assertion, not a way the operation ends.
+func nilAssertion(info *types.Info, root ast.Node, call ast.Node) bool {
+	chain := pathTo(root, call)
+	for i := len(chain) - 2; i >= 0; i-- {
+		is, ok := chain[i].(*ast.IfStmt)
+		if !ok {
+			continue
+		}
+		if !containsNode(is.Body, call) || len(is.Body.List) != 1 {
+			return false
+		}
+		be, ok := ast.Unparen(is.Cond).(*ast.BinaryExpr)
+		if !ok || be.Op != token.EQL {
+			return false
+		}
+		tx, ty := info.Types[be.X], info.Types[be.Y]
+		return tx.IsNil() || ty.IsNil()
+	}
+	return false
+}
+
+// rePanicOnly: `defer func() { if r := recover(); r != nil { panic(r) } }()`: the deferred function
+// passes on what it caught, unchanged.
+func rePanicOnly(info *types.Info, ds *ast.DeferStmt) bool {
+	lit, ok := ast.Unparen(ds.Call.Fun).(*ast.FuncLit)
+	if !ok || len(ds.Call.Args) != 0 || len(lit.Body.List) != 1 {
+		return false
+	}
+	is, ok := lit.Body.List[0].(*ast.IfStmt)
+	if !ok || is.Init == nil || is.Else != nil || len(is.Body.List) != 1 {
+		return false
+	}
+	as, ok := is.Init.(*ast.AssignStmt)
+	if !ok || len(as.Lhs) != 1 || len(as.Rhs) != 1 {
+		return false
+	}
+	rc, ok := ast.Unparen(as.Rhs[0]).(*ast.CallExpr)
+	if !ok || !isBuiltinCall(info, rc, "recover") {
+		return false
+	}
+	caught := identObj(info, as.Lhs[0])
+	es, ok := is.Body.List[0].(*ast.ExprStmt)
+	if !ok || caught == nil {
+		return false
+	}
+	pc, ok := es.X.(*ast.CallExpr)
+	return ok && isBuiltinCall(info, pc, "panic") && len(pc.Args) == 1 && identObj(info, pc.Args[0]) == caught
 }
